@@ -25,7 +25,7 @@ RULE = (
     "transfer_data calls whose copies take virtual time and may fail. Oracle: every query equals a reference model of "
     "the registry history; statement-level invariants: after invalidating p on a location no entry of that location at "
     "or beneath p is reported, entries of other locations are untouched, a re-registered path is reported again, "
-    "get_source_location returns only a valid PRIMARY copy and always returns (bounded liveness: quiescence with a "
+    "get_source_location (also issued while the transfer of that path is in flight) returns only a valid PRIMARY copy and always returns; a failed transfer may be retried to the same destination (bounded liveness: quiescence with a "
     "parked lookup after a failed transfer is a violation); a successful transfer leaves an available copy. "
     "non-trivial = at least one invalidation or transfer happened; distinct = loop digests"
 )
@@ -101,7 +101,10 @@ class Model:
             e = self.entries[i]
             if e["dep"] == dep:
                 e["valid"] = False
-                self.valid_paths[path][dep].discard(e["path"])
+                # an invalidated entry frees its path everywhere it was linked, so that the path can be registered again
+                for node, ids in self.visible.items():
+                    if i in ids:
+                        self.valid_paths[node][dep].discard(e["path"])
         for node in list(self.visible):
             if os.path.dirname(node) == path and node != path:
                 for i in list(self.visible[node]):
@@ -155,7 +158,7 @@ def run(sim, params):
         invalidated = 0
 
         def rel_paths(dep):
-            tree = ["a", "a/b", "a/b/c", "a/b/c/d", "a/x", "e", "e/f"]
+            tree = ["a", "a/b", "a/b/c", "a/b/c/d", "a/x", "e", "e/f", "e/x"]
             return [os.path.join(roots[dep], p) for p in tree]
 
         def check_query(path, dep, typ):
@@ -164,7 +167,7 @@ def run(sim, params):
                 data_type=(None if typ is None else DataType[typ])))
             want = model.query(path, dep, typ)
             if got != want:
-                raise Violation("query_mismatch", f"get_data_locations({path!r}, deployment={dep}, type={typ}) -> {got} but the registry history implies {want}; history={hist[-10:]}",
+                raise Violation("query_mismatch", f"get_data_locations({path!r}, deployment={dep}, type={typ}) -> {got} but the registry history implies {want}; history={hist[-25:]}",
                                 signature="query_mismatch")
 
         pending_transfers = []
@@ -178,12 +181,41 @@ def run(sim, params):
             dm.register_path(locs[src_dep], src, os.path.basename(src))
             dst = os.path.join(roots[dst_dep], f"job{k}", f"tr{k}.txt")
             await sim.io("transfer.start", k)
+            writable = bool(t.draw(2, "tr.writable"))
+            retry = bool(t.draw(2, "tr.retry"))
+
+            async def watcher():
+                # a consumer looking the destination up while the copy is in flight: it may get nothing,
+                # or a valid available PRIMARY copy whose file exists - never an invalid or unfinished one
+                await sim.io("watch", k, extra=t.draw(4, "watch.at"))
+                res = await asyncio.wait_for(dm.get_source_location(dst, dst_dep), timeout=10_000)
+                sim.probe("lookup_during_transfer")
+                if res is not None:
+                    if res.data_type != DataType.PRIMARY:
+                        raise Violation("invalid_source", f"get_source_location({dst!r}) issued while its transfer was in flight returned a {res.data_type.name} copy",
+                                        signature="invalid_source:lookup_during_transfer")
+                    if not os.path.exists(res.path) or open(res.path).read() != f"data{k}":
+                        raise Violation("invalid_source", f"get_source_location({dst!r}) issued while its transfer was in flight returned {res.path}, which does not hold the data",
+                                        signature="invalid_source:lookup_during_transfer")
+
+            wt = asyncio.create_task(watcher(), name=f"transfer{k}w")
+            ok = False
+            for attempt in range(2 if retry else 1):
+                try:
+                    await dm.transfer_data(src_location=locs[src_dep], src_path=src, dst_locations=[locs[dst_dep]], dst_path=dst, writable=writable)
+                    ok = True
+                    break
+                except WorkflowExecutionException:
+                    ok = False
+                    sim.probe("transfer_failed")
+                    if attempt == 0 and retry:
+                        sim.probe("transfer_retried_same_destination")
+            if ok:
+                sim.probe("transfer_ok")
             try:
-                await dm.transfer_data(src_location=locs[src_dep], src_path=src, dst_locations=[locs[dst_dep]], dst_path=dst, writable=bool(t.draw(2, "tr.writable")))
-                ok = True
-            except WorkflowExecutionException:
-                ok = False
-            sim.probe("transfer_ok" if ok else "transfer_failed")
+                await wt
+            except (asyncio.TimeoutError, TimeoutError):
+                raise Violation("lookup_hangs", f"get_source_location({dst!r}) issued during the transfer never returns", signature="lookup_hangs:during_transfer")
             # whatever happened, a later lookup of the destination must return
             try:
                 res = await asyncio.wait_for(dm.get_source_location(dst, dst_dep), timeout=10_000)
@@ -217,12 +249,15 @@ def run(sim, params):
                     raise Violation("registered_path_not_reported", f"{path} not reported on {dep} right after register_path; history={hist}", signature="registered_path_not_reported")
             elif kind == 3 and len(registered) >= 2:
                 a = registered[t.draw(len(registered), "rel.a")]
-                cands = [x for x in registered if x[0] != a[0] and os.path.relpath(x[1], roots[x[0]]) == os.path.relpath(a[1], roots[a[0]])]
+                # relations link copies of the same data: the same relative path on another location, or
+                # a leaf with the same name in another directory of the same location (what transfers
+                # and symbolic links register)
+                cands = [x for x in registered if (x[0] != a[0] and os.path.relpath(x[1], roots[x[0]]) == os.path.relpath(a[1], roots[a[0]])) or
+                         (x[0] == a[0] and x[1] != a[1] and os.path.basename(x[1]) == os.path.basename(a[1]) == "x")]
                 b = cands[t.draw(len(cands), "rel.b")] if cands else a
-                # relations link copies of the same data on different locations (same relative path),
-                # which is what transfers and symbolic links register
-                same_rel = os.path.relpath(a[1], roots[a[0]]) == os.path.relpath(b[1], roots[b[0]])
-                if a != b and a[0] != b[0] and same_rel:
+                if a != b:
+                    if a[0] == b[0]:
+                        sim.probe("relation_same_location")
                     dm.register_relation(handles[a][0], handles[b][0])
                     model.relate(handles[a][1], handles[b][1])
                     hist.append(("relate", a[0], os.path.relpath(a[1], sim.scratch), b[0], os.path.relpath(b[1], sim.scratch)))
